@@ -844,9 +844,23 @@ DamageProbe(m, e) ==
                 [ck |-> e.ck, at |-> e.at, field |-> e.field, past_eof |-> e.past_eof, newest |-> e.newest])
   ELSE m
 
+\* C11 ("each file's name is the global byte offset of its first record ... all u64 offsets for the file-name
+\* encoding"): the final image shifted to base offset x (a decimal string: TLC integers are 32 bit).  The store
+\* must open it with the same state and entries, and after a continuation through rotations the directory must
+\* hold exactly the names `want` = the harness's own formatting of x + the offsets of the unshifted run;
+\* returned segments and on_disk_size must shift by exactly x.
+CodecProbe(m, e) ==
+  IF e.res # "ok" THEN ViolKeep(m, "C11", "shifted_journal_not_usable", e, [x |-> e.x, res |-> e.res])
+  ELSE IF ~e.same_view THEN ViolKeep(m, "C11", "shifted_journal_state_differs", e, [x |-> e.x])
+  ELSE IF e.got # e.want THEN ViolKeep(m, "C11", "chunk_name_is_not_its_global_offset", e, [x |-> e.x, got |-> e.got, want |-> e.want])
+  ELSE IF ~e.segs_ok THEN ViolKeep(m, "C11", "segment_not_where_record_is", e, [x |-> e.x])
+  ELSE IF ~e.ods_ok THEN ViolKeep(m, "C11", "on_disk_size_wrong", e, [x |-> e.x])
+  ELSE m
+
 ProbeStep(m0, e) ==
   LET m == Cnt(m0, "probes") IN
   IF e.kind = "tail" THEN TailProbe(m, e)
+  ELSE IF e.kind = "codec" THEN CodecProbe(m, e)
   ELSE IF e.kind \in {"damage", "missing"} THEN DamageProbe(m, e)
   ELSE IF e.kind # "crash" THEN m
   ELSE IF "gen2" \notin DOMAIN e /\ ~ImageAllowed(m, e.img) THEN Note(m, "probe_image_outside_crash_model", e)
